@@ -98,6 +98,8 @@ func finishWorlds(o genOpts, prop string, worlds []*World, labels map[int]string
 // ---------------------------------------------------------------------------
 // C02
 
+var c02Extra map[string]any
+
 func cavWith(field string, variant int) Cav {
 	// variant 0: the restricting value; 1: a value satisfying it; 2: a value contradicting it
 	switch field {
@@ -282,6 +284,9 @@ func init() {
 			w, label := sessionWorld(o.seed, id, sessOpts{Attested: "this", AttIssuer: "delegate", Resource: "authority", Window: "valid", Pos: 1, Resolver: "absent", ParentProof: variant})
 			add(w, "attest-redelegation "+label)
 		}
+		mappedDirect, mappedRuns := c02Mapped(o.seed)
+		c02Extra = map[string]any{"direct_violations": mappedDirect, "mapped_caveat_runs": mappedRuns,
+			"direct_oracle": "capability with schema.Mapped plain-Go caveats: a claim above the size a delegation of its chain allows is never authorized (1..3 hops x restricting delegation x claim {50,100,101,500})"}
 		if o.tier == "thorough" {
 			r := rand.New(rand.NewSource(o.seed))
 			for i := 0; i < 4000; i++ {
@@ -302,7 +307,7 @@ func init() {
 				add(w, "random caveats")
 			}
 		}
-		return finishWorlds(o, "C02", worlds, labels, st, 16, nil)
+		return finishWorlds(o, "C02", worlds, labels, st, 16, c02Extra)
 	}
 }
 
@@ -320,6 +325,7 @@ type sessOpts struct {
 	// 3 parent nb null, 4 parent is `*` with no caveat, 5 parent names this token but attestation names another
 	Decoys    int
 	BadDecoys int  // attestations alongside that are themselves invalid: expired, badly signed, issued by a stranger
+	AttAudience string // "" = the holder citing it; "stranger" = a genuine attestation of this token addressed to SOMEBODY ELSE (not aligned: unusable)
 	AttFirst  bool // attestation is not the first capability of its token (then it is not considered)
 	RSAAuth   bool
 	WebAuth   bool    // the authority is identified by did:web:example.com (its key wrapped), not by a did:key
@@ -373,6 +379,9 @@ func sessionWorld(seed int64, id int, so sessOpts) (*World, string) {
 				target = "othertok"
 			}
 			att = &TokSpec{Name: "att", Audience: agent, Exp: &far}
+			if so.AttAudience == "stranger" {
+				att.Audience = cast.Ed("mallory")
+			}
 			att.Caps = []CapSpec{{Can: "ucan/attest", With: attWith, Nb: attestNb{w, target}}}
 			if so.AttFirst {
 				att.Caps = append([]CapSpec{{Can: "debug/echo", With: with, Nb: Cav{}}}, att.Caps...)
@@ -427,6 +436,9 @@ func sessionWorld(seed int64, id int, so sessOpts) (*World, string) {
 				att.Exp = &e
 			case "notyet":
 				att.Nbf = now + 100000
+			case "notyet-noexp":
+				att.Nbf = now + 100000
+				att.Exp = nil
 			}
 			if so.TimeShift != nil {
 				if so.TimeShift[0] == -1 {
@@ -495,9 +507,18 @@ func sessionWorld(seed int64, id int, so sessOpts) (*World, string) {
 		w.Ctx.KeyResolver[account.DID.String()] = acctKey
 	case "wrong":
 		w.Ctx.KeyResolver[account.DID.String()] = cast.Ed("wrongkey")
+	case "unparsable":
+		// the resolver answers, without error, with a key the principal parser cannot use (RSA, parser knows Ed25519 only)
+		w.Ctx.KeyResolver[account.DID.String()] = cast.RSA("acctrsa", 2)
+	case "undef":
+		// ... or with the undefined DID (a table lookup that misses, returned without an error)
+		w.Ctx.KeyResolver[account.DID.String()] = &Prin{Name: "undef"}
 	}
 	w.Specs = specs
 	label := fmt.Sprintf("attested=%s issuer=%s resource=%s window=%s pos=%d resolver=%s parent=%d", so.Attested, so.AttIssuer, so.Resource, so.Window, so.Pos, so.Resolver, so.ParentProof)
+	if so.AttAudience != "" {
+		label += " attestation-audience=" + so.AttAudience
+	}
 	return w, label
 }
 
@@ -529,9 +550,15 @@ func init() {
 		for _, attested := range []string{"this", "other", "none"} {
 			for _, iss := range []string{"authority", "delegate", "delegate-broken", "stranger", "stranger-with-proofs"} {
 				for _, res := range []string{"authority", "other"} {
-					for _, win := range []string{"valid", "expired", "notyet"} {
+					for _, win := range []string{"valid", "expired", "notyet", "notyet-noexp"} {
 						for pos := 0; pos <= 3; pos++ {
-							for _, rs := range []string{"absent", "correct", "wrong"} {
+							for _, rs := range []string{"absent", "correct", "wrong", "unparsable", "undef"} {
+								if (rs == "unparsable" || rs == "undef") && (win != "valid" || iss != "authority") {
+									continue
+								}
+								if win == "notyet-noexp" && rs != "absent" {
+									continue
+								}
 								w, label := sessionWorld(o.seed, id, sessOpts{Attested: attested, AttIssuer: iss, Resource: res, Window: win, Pos: pos, Resolver: rs})
 								w.ID = id
 								labels[id] = label
@@ -548,6 +575,18 @@ func init() {
 			for _, attested := range []string{"this", "other"} {
 				for pos := 1; pos <= 2; pos++ {
 					w, label := sessionWorld(o.seed, id, sessOpts{Attested: attested, AttIssuer: "delegate", Resource: "authority", Window: "valid", Pos: pos, Resolver: "absent", ParentProof: pp})
+					w.ID = id
+					labels[id] = label
+					worlds = append(worlds, w)
+					id++
+				}
+			}
+		}
+		// a genuine attestation of this token that was delegated to somebody else than the issuer of the token citing it
+		for _, iss := range []string{"authority", "delegate"} {
+			for pos := 1; pos <= 2; pos++ {
+				for dec := 0; dec <= 1; dec++ {
+					w, label := sessionWorld(o.seed, id, sessOpts{Attested: "this", AttIssuer: iss, Resource: "authority", Window: "valid", Pos: pos, Resolver: "absent", ParentProof: 1, Decoys: dec, AttAudience: "stranger"})
 					w.ID = id
 					labels[id] = label
 					worlds = append(worlds, w)
@@ -1094,7 +1133,7 @@ func init() {
 	gens["C03"] = func(o genOpts) error {
 		st := newWorldStats()
 		labels := map[int]string{}
-		positions := []string{"invocation", "proof1", "proof2", "proof3", "proof4", "attestation", "attest-parent", "resolver-proof", "proof1-twin", "proof2-twin"}
+		positions := []string{"invocation", "proof1", "proof2", "proof3", "proof4", "attestation", "attest-parent", "resolver-proof", "proof1-twin", "proof2-twin", "proof1-twin-noexp", "proof2-twin-noexp"}
 		expOffs := []int{-9, -8, -7, -100000, -1, 0, 1, 100000} // -9 unset, -8 / -7 the absolute values 0 and 1
 		nbfOffs := []int{-9, -100000, -1, 0, 1, 100000}         // -9: unset
 		var todo []timedCase
@@ -1283,8 +1322,9 @@ func timedWorld(seed int64, id int, tc timedCase, t int) (*World, string) {
 		apply(specs[depth-2])
 		specs[depth-1].Proofs[0].Inline = false
 		w.Ctx.Resolvable[specs[depth-2].Name] = true
-	case "proof1-twin", "proof2-twin":
+	case "proof1-twin", "proof2-twin", "proof1-twin-noexp", "proof2-twin-noexp":
 		// the proof with the window under test is cited right AFTER another copy of it that is long expired
+		// (-noexp: by a token that itself never expires — it does not inherit an expiry from what it carries)
 		k := int(tc.pos[5] - '0')
 		target := specs[depth-k]
 		apply(target)
@@ -1295,6 +1335,9 @@ func timedWorld(seed int64, id int, tc timedCase, t int) (*World, string) {
 		tw.Proofs = append([]ProofRef{}, target.Proofs...)
 		citing := specs[depth-k+1]
 		citing.Proofs = append([]ProofRef{{Tok: tw.Name, Inline: true}}, citing.Proofs...)
+		if len(tc.pos) > 6 && tc.pos[len(tc.pos)-6:] == "-noexp" {
+			citing.Exp = nil
+		}
 		// insert the twin before the citing token
 		var out []*TokSpec
 		for _, sp := range specs {
